@@ -12,12 +12,15 @@ Only property theorems live here (helper lemmas: `Lemmas/Labels*.lean`, `Lemmas/
 -/
 import PdfVerif.Lemmas.Labels
 import PdfVerif.Lemmas.LabelRanges
+import PdfVerif.Lemmas.LabelsExtra
 import PdfVerif.Lemmas.Outline
+import PdfVerif.Lemmas.OutlineGraph
 import PdfVerif.Lemmas.NameTree
 
 namespace PdfVerif.Props.C17
 open PdfVerif PdfVerif.Labels PdfVerif.Gen.LabelTables
-open PdfVerif.Lemmas.Labels PdfVerif.Lemmas.LabelsFinite
+open PdfVerif.Lemmas.Labels PdfVerif.Lemmas.LabelsFinite PdfVerif.Lemmas.LabelsExtra
+open PdfVerif.Spec.LabelsExtra
 
 /-! ## Text strings (ISO 32000-1 7.9.2.2, Annex D.2) -/
 
@@ -41,6 +44,28 @@ example : Spec.Labels.text [0xFE, 0xFF, 0xD8, 0x3D, 0xDE, 0x00, 0x00, 0x41] = so
   decide +kernel
 example : Spec.Labels.text [0x18, 0x80, 0xA0, 0x41] = some [0x2D8, 0x2022, 0x20AC, 0x41] := by decide +kernel
 example : decodeText [0xFE, 0xFF, 0xD8, 0x3D, 0xDE, 0x00, 0x00, 0x41] = [0x1F600, 0x41] := by decide +kernel
+
+/-- Round trip against the encoder: every list of Unicode scalar values, written as a UTF-16BE
+text string (byte-order mark, big-endian units, surrogate pairs above U+FFFF), is decoded back
+to exactly that list. -/
+theorem utf16_roundtrip (cs : List Nat) (h : ∀ c ∈ cs, isScalar c = true) :
+    decodeText (encodeUtf16BE cs) = cs := by
+  have hu : ∀ u ∈ cs.flatMap unitsOfScalar, u < 65536 := by
+    intro u hu
+    obtain ⟨c, hc, huc⟩ := List.mem_flatMap.mp hu
+    have := h c hc
+    simp only [isScalar, Bool.and_eq_true, decide_eq_true_eq] at this
+    unfold unitsOfScalar at huc
+    split at huc
+    · simp at huc; omega
+    · simp at huc; omega
+  unfold decodeText encodeUtf16BE
+  simp only [List.cons_append, List.nil_append, hasBOM, List.drop]
+  simp [decodeUnits, units_unitBytes _ hu, decodeAux_scalars cs h]
+
+/-- Non-vacuity: BMP and astral scalars are in the domain of the round trip. -/
+example : encodeUtf16BE [0x41, 0x4E2D, 0x1F600, 0x10FFFF] =
+    [0xFE, 0xFF, 0x00, 0x41, 0x4E, 0x2D, 0xD8, 0x3D, 0xDE, 0x00, 0xDB, 0xFF, 0xDF, 0xFF] := by decide +kernel
 
 /-! ## Numerals (ISO 32000-1 Table 159) -/
 
@@ -94,6 +119,17 @@ theorem alpha_partial (n : Nat) (h0 : 0 < n) (h1 : n ≤ 26) :
   rw [hn, Bool.false_or] at h
   rw [eq_of_isOk h]
   simp [Spec.Labels.alpha, h0, Except.toOption]
+
+/-- What the code computes for styles A/a, for EVERY positive value: the numeral whose reading in
+bijective base 26 (a = 1 … z = 26, spreadsheet columns) is the value — a bijection, but not the
+repeated letter of Table 159. -/
+theorem alpha_bijective (n : Nat) (h : 0 < n) :
+    ∃ t, formatIntAlpha (n : Int) = .ok t ∧ alphaValue t = n := by
+  refine ⟨alphaLoop n n [], ?_, ?_⟩
+  · simp [formatIntAlpha]; omega
+  · unfold alphaValue
+    rw [alphaLoop_value n n [] (Nat.le_refl n)]
+    rfl
 
 /-- The loop bound of the letters model is never the reason it stops: any fuel `≥ value` gives
 the same result (the code's `while value != 0` terminates since `(value − 1) / 26 < value`). -/
@@ -152,6 +188,26 @@ theorem C17_label_range (t : NumTree LabelDict) (n i : Nat) (hi : i < n)
     simp only [Option.some.injEq] at hr
     rw [hr] at hg
     simpa [withZero, labelsAux, firstValue] using hg
+
+/-- With `settings.STRICT = True` (no sort, ordering and "index 0" checks instead) a conforming
+tree gives exactly the labels of the default mode — nothing is rejected. -/
+theorem C17_label_strict (t : NumTree LabelDict) (n : Nat)
+    (hasc : ascending ((flatten t).map (·.1)) = true)
+    (h0 : (flatten t).head?.map (·.1) = some 0) :
+    labelsStrict t n = .ok (Labels.labels t n) := by
+  unfold labelsStrict Labels.labels
+  rw [numtree_values t hasc]
+  unfold NumTree.valuesStrict
+  rw [parse_eq_flatten, nonDecreasing_of_ascending _ hasc]
+  cases hf : flatten t with
+  | nil => simp [hf] at h0
+  | cons p tl =>
+    obtain ⟨k, d⟩ := p
+    rw [hf] at h0
+    simp only [List.head?_cons, Option.map_some, Option.some.injEq] at h0
+    subst h0
+    simp [withZero]
+
 
 /-- The model's numeral is the ISO numeral: decimal, roman (upper/lower) for `0 < v < 4000`,
 letters for `v ≤ 26` (beyond that the statement is false, see `alpha_cex`). -/
@@ -321,6 +377,40 @@ example :
 
 end Outline
 
+/-! ### Outlines as object graphs: termination (fix 331cdea keeps a visited set) -/
+
+section OutlineGraph
+open PdfVerif.Outline PdfVerif.OutlineGraph PdfVerif.Lemmas.OutlineGraph
+
+/-- **Termination.** On EVERY finite store of outline dictionaries — First/Next links that
+dangle, are shared, point back to an ancestor or to the item itself — the walk with the visited
+set never exhausts the budget `|store| + 1`, and no object id is visited twice (so every
+dictionary contributes at most one item). -/
+theorem C17_outline_terminates (g : Store) (root : Nat) :
+    ∃ items vis, searchG g (g.length + 1) [] root 0 = some (items, vis) ∧ vis.Nodup := by
+  have hu : unvisited g [] < g.length + 1 := by
+    unfold unvisited
+    exact Nat.lt_succ_of_le (List.length_filter_le _ _)
+  obtain ⟨items, vis, h, _, hn⟩ := searchG_total g (g.length + 1) [] root 0 hu
+  exact ⟨items, vis, h, hn List.nodup_nil⟩
+
+theorem C17_outline_graph_total (g : Store) (root : Nat) : (getOutlinesG g root).isSome = true := by
+  obtain ⟨items, vis, h, _⟩ := C17_outline_terminates g root
+  simp [getOutlinesG, h]
+
+/-- A damaged outline: item 2 has itself as `Next`, item 3's `First` points back to the root,
+item 4 hangs off a dangling reference.  The walk ends and lists each reachable item once. -/
+example :
+    let g : Store :=
+      [(1, { info := {}, first := some 2, hasLast := true }),
+       (2, { info := { title := some [65], dest := some 7 }, first := some 3, hasLast := true, next := some 2 }),
+       (3, { info := { title := some [66], a := some 8 }, first := some 1, hasLast := true, next := some 9 }),
+       (4, { info := { title := some [67], dest := some 9 } })]
+    getOutlinesG g 1 = some [⟨1, [65], some 7, none, none⟩, ⟨2, [66], none, some 8, none⟩] := by
+  decide +kernel
+
+end OutlineGraph
+
 /-! ## Name trees and named destinations (ISO 32000-1 7.9.6, 12.3.2.3) -/
 
 section NameTree
@@ -342,6 +432,13 @@ theorem C17_nametree (t : Node) (hwf : wf true t = true) (key : Key) :
     simp [lookupName, this]
   | none =>
     rcases g.2 (not_mem_of_assoc_none ha) with h | ⟨h, _⟩ <;> simp [lookupName, h]
+
+/-- The in-order flattening of a conforming name tree is strictly ascending in the byte-string
+order (derived from the local conditions of `wf`: leaves ascending, Limits bounding, siblings
+separated) — so keys are unique and "the value associated with the key" is unambiguous. -/
+theorem C17_nametree_sorted (t : Node) (hwf : wf true t = true) :
+    List.Pairwise (fun x y => klt x y = true) ((flatten t).map (·.1)) :=
+  flatten_sorted true t hwf
 
 /-- `get_dest`: a string is looked up in the name tree, a name in the catalog's `Dests`
 dictionary; everything else is `PDFDestinationNotFound`. -/
